@@ -4,4 +4,4 @@
 From Coq Require Extraction ExtrOcamlBasic.
 From Traph Require Import Driver.
 Extraction Language OCaml.
-Extraction "../ocaml/model.ml" Driver.exec Driver.d0.
+Extraction "../ocaml/model.ml" Driver.exec_traced Driver.d0.
